@@ -169,14 +169,129 @@ def run(ctx, model):
         transcripts.run_c13(ctx, model)
     else:
         ctx.notes.append("public-call level (read/write/generic_message through the fake socket) not built yet")
+    run_public(ctx, model)
     outs = model.batch(lines)
     for (stream, transport, raw, impl), out in zip(pend, outs):
         if out != impl:
             ctx.mismatch(stream, {"transport": transport, "raw": None if raw is None else raw.hex()[:200]}, impl[:300], out[:300])
 
 
+def run_public(ctx, model):
+    """public-call level: the real LogixDriver against the reference controller; the k-th connected reply of a call is
+    replaced by one carrying a CIP error status (or is cut short).  Whatever the position — also a later fragment of a
+    fragmented transfer — the request it belongs to must come back falsy with a non-empty error, never as success and
+    never as a foreign exception."""
+    from props.c04 import sized_project
+    from props import logix as lx
+    rng = ctx.rng
+    STAT = [(0x05, []), (0x10, []), (0xFF, [0x2105]), (0x04, [0]), (0x1F, [0x0203])]
+
+    def err_reply(reply, status, ext):
+        # connected reply: 44 bytes of encapsulation + CPF, sequence count, reply service, reserved, status, ext size, ext words
+        body = reply[:48] + bytes([status, len(ext)]) + b"".join(e.to_bytes(2, "little") for e in ext)
+        body = bytearray(body)
+        struct.pack_into("<H", body, 2, len(body) - 24)
+        struct.pack_into("<H", body, 42, len(body) - 44)
+        return bytes(body)
+
+    scenarios = []
+    for big in (1400, 700):
+        scenarios += [("write-fragmented", big), ("read-fragmented", big)]
+    scenarios += [("write", 40), ("read", 40), ("bit-write", 4), ("multi-write", 60), ("multi-read", 60)]
+    for kind, size in scenarios:
+        # how many connected replies does the healthy call take?
+        def session():
+            p = sized_project(rng, [(size, "big"), (60, "o0"), (60, "o1")])
+            s = lx.Session(model, p, conn_large=False)
+            return p, s
+
+        def call(s):
+            if kind.startswith("write"):
+                return s.d.write(("big{%d}" % size, [1] * size))
+            if kind.startswith("read"):
+                return s.d.read("big{%d}" % size)
+            if kind == "bit-write":
+                return s.d.write(("big[1].3", True))
+            if kind == "multi-write":
+                return s.d.write(("big{%d}" % size, [2] * size), ("o0{4}", [1, 2, 3, 4]), ("o1[5]", 7))
+            return s.d.read("big{%d}" % size, "o0{4}", "o1[5]")
+        p, s = session()
+        if s.open_error is not None:
+            ctx.count("open-failed")
+            s.close()
+            continue
+        n0 = len([r for r in s.sock.replies if r[:2] == b"\x70\x00"])
+        healthy = call(s)
+        n_replies = len([r for r in s.sock.replies if r[:2] == b"\x70\x00"]) - n0
+        s.close()
+        hl = healthy if isinstance(healthy, list) else [healthy]
+        if not all(hl):
+            ctx.violation("healthy-call-fails:" + kind, {"kind": kind, "bytes": size}, str([lx.tag_summary(t) for t in hl])[:300])
+            continue
+        positions = list(range(n_replies)) if ctx.tier == "thorough" or n_replies <= 4 else sorted({0, 1, n_replies // 2, n_replies - 2, n_replies - 1})
+        for k in positions:
+            for how in (["status"] * 2 + ["cut47", "cut48"]) if ctx.tier == "quick" else (["status"] * len(STAT) + ["cut47", "cut48", "cut46"]):
+                status, ext = rng.choice(STAT) if ctx.tier == "quick" else STAT[positions.index(k) % len(STAT)]
+                p, s = session()
+                if s.open_error is not None:
+                    s.close()
+                    continue
+                seen = {"n": 0}
+
+                def flt(reply, seen=seen, k=k, how=how, status=status, ext=ext):
+                    if reply[:2] != b"\x70\x00":
+                        return reply
+                    i = seen["n"]
+                    seen["n"] += 1
+                    if i != k:
+                        return reply
+                    if how == "status":
+                        return err_reply(reply, status, ext)
+                    cut = int(how[3:])
+                    out = bytearray(reply[:cut])
+                    struct.pack_into("<H", out, 2, len(out) - 24)
+                    return bytes(out)
+                # count only the replies of the call itself
+                base_filter_start = len([r for r in s.sock.replies if r[:2] == b"\x70\x00"])
+                seen["n"] = -0
+                s.sock.reply_filter = flt
+                case = {"call": kind, "bytes": size, "connected_replies_of_a_healthy_call": n_replies, "altered_reply": k, "alteration": how,
+                        "status": status if how == "status" else None}
+                ctx.case("public-calls", ("pub", kind, size, k, how, status))
+                ctx.count("public/%s/%s" % (kind, how))
+                try:
+                    res = core.with_budget(60, call, s)
+                except BaseException as e:  # noqa
+                    if isinstance(e, (KeyboardInterrupt, SystemExit)):
+                        raise
+                    cls = core.exn_class(e)
+                    if cls.startswith("foreign") or cls == "hang":
+                        ctx.violation("public-call-raises-foreign:" + cls.split(":")[-1], case, repr(e)[:300])
+                    s.close()
+                    continue
+                rl = res if isinstance(res, list) else [res]
+                # the first request of the call is the one whose transfer was hit when the call is a single transfer;
+                # in the multi calls every request shares the packet
+                hit = rl if kind.startswith("multi") else rl[:1]
+                if how != "status" or True:
+                    bad = [t for t in hit if t]
+                    # in a multi call only the requests carried by the altered packet must fail: at least one does
+                    if (kind.startswith("multi") and len(bad) == len(hit)) or (not kind.startswith("multi") and bad):
+                        ctx.violation("failed-reply-reported-as-success:" + kind, case,
+                                      "reply %d of %d was replaced by %s, result %s" % (k, n_replies, how if how != "status" else "status %#x" % status,
+                                                                                      [lx.tag_summary(t) for t in rl][:3]))
+                    for t in hit:
+                        if not t and not t.error:
+                            ctx.violation("falsy-result-without-error-text:" + kind, case, str(lx.tag_summary(t)))
+                s.close()
+
+
 def replay(ctx, model, data):
     inp = data["input"]
+    if "call" in inp:
+        c = core.Ctx("C13", data.get("tier", "quick"), data.get("seed", 0))
+        run(c, model)
+        return any(v["sig"] == data["sig"] for v in c.violations)
     raw = bytes.fromhex(inp["raw"]) if inp["raw"] is not None else None
     dt = inp["data_type"]
     if dt:
